@@ -276,7 +276,9 @@ func (d *HeadingDetector) detectBodyFontSize(paragraphs []Paragraph) float64 {
 	maxCount := 0
 	mostCommonBucket := 0
 	for bucket, count := range fontCounts {
-		if count > maxCount {
+		// Map iteration order is random: on a tie take the smaller size (body text
+		// is not larger than headings), so the result is the same on every run.
+		if count > maxCount || (count == maxCount && bucket < mostCommonBucket) {
 			maxCount = count
 			mostCommonBucket = bucket
 		}
